@@ -121,6 +121,9 @@ icase::ICase build(const Seed& sd) {
     }
     st[flat::F_epi] = s.chance(1, 6);
     st[flat::F_epj] = s.chance(1, 6);
+    for (int f : {flat::F_stepi, flat::F_stepj, flat::F_stepi0, flat::F_stepj0})
+        if (s.chance(1, 4))
+            st[f] = 0; // configured zero steps
     for (int j = 0; j < 2; ++j) {
         unsigned mod;
         switch (s.below(5)) {
@@ -254,7 +257,7 @@ vf::Result check(const icase::ICase& c) {
         else if (raddr::is_two(e.step))
             vf::klass("+-2 step");
         else if (e.step == raddr::PlusS)
-            vf::klass("+s step");
+            vf::klass(post == pre ? "+s step with a configured step of 0" : "+s step");
     }
     if (fi.memory) {
         const Expect& e = ex[0];
@@ -314,6 +317,9 @@ icase::ICase build_ar(const Seed& sd) {
     const auto& grp = ar_strata()[(sd.pick >> 16) % ar_strata().size()];
     c.opcode = grp[(sd.pick & 0xFFFF) % grp.size()];
     vf::Stream s(sd.seed ^ 0x5151);
+    for (int i = 0; i < 3; ++i)
+        c.st[flat::F_ip + i] = 0; // nothing pending: a form that loads a status word may set ie, which must not be followed by an interrupt entry
+    c.st[flat::F_ipv] = 0;
     c.pokes = icase::gen_pokes(s, c.st, c.opcode, c.expansion);
     return c;
 }
@@ -368,6 +374,38 @@ vf::Result check_ar(const icase::ICase& c) {
             changed = true;
         vf::klass(std::string("arstep: ") + (modulo ? "modulo +-1" : (dmod && c.st[flat::F_m + unit] ? "modulo disabled by the instruction" : "linear")) +
                   (unit >= 4 ? " (j side)" : " (i side)"));
+    }
+    // the cells accessed: with no offset in play, every data access goes to the cell a named register points at *before* its step --
+    // the register value itself, or its 16-bit bit reversal when bit reversal is on and modulo off for that register
+    bool plain_offsets = true;
+    for (auto& rf : refs)
+        if (count[rf.reg] > 1 || (rf.has_step && rf.off != 0))
+            plain_offsets = false;
+    if (plain_offsets && info.name.rfind("modr", 0) != 0) {
+        size_t idx = 0, nfetch = 1 + (info.expanded ? 1 : 0);
+        for (auto& a : r.log) {
+            if (idx++ < nfetch || a.addr < 0x20000)
+                continue;
+            uint16_t da = (uint16_t)(a.addr - 0x20000);
+            bool ok = false, reversed = false;
+            for (auto& rf : refs) {
+                uint16_t pre = (uint16_t)c.st[flat::F_r + rf.reg];
+                if (da == raddr::access_address(c.st, (unsigned)rf.reg, pre)) {
+                    ok = true;
+                    reversed = c.st[flat::F_br + rf.reg] && !c.st[flat::F_m + rf.reg];
+                }
+            }
+            if (!ok) {
+                std::string regs;
+                for (auto& rf : refs)
+                    regs += " r" + std::to_string(rf.reg) + "=" + vf::hex(c.st[flat::F_r + rf.reg]) + "(br=" + vf::hex(c.st[flat::F_br + rf.reg]) + ",m=" +
+                            vf::hex(c.st[flat::F_m + rf.reg]) + ")";
+                return vf::Result::fail("C10:araddress:" + info.name, std::string(a.write ? "write to" : "read of") + " data address " + vf::hex(da) +
+                                                                          " which is not the (bit-reversed where configured) pre-step value of a named register:" + regs + " for " + where);
+            }
+            vf::klass(reversed ? "arstep: bit-reversed access through an ar/arp form" : "arstep: plain access through an ar/arp form");
+            in_model = true;
+        }
     }
     uint64_t h = vf::hash_bytes(c.st.v, sizeof c.st.v, c.opcode);
     vf::note(h, changed && in_model);
